@@ -234,7 +234,6 @@ fn match_total(four: bool, offset1: bool) {
         assert!(valid_reference(&text[..len], pos + o, t.len() as usize, t.dist() as usize), "predicted reference does not match the text");
     }
     kani::cover!(matches!(r, MatchResult::Success(_)), "a match was found");
-    kani::cover!(matches!(r, MatchResult::NoInput), "no input");
 }
 kproof! { fn k05e_match_total_h3_o0() { match_total(false, false); } }
 kproof! { fn k05e_match_total_h3_o1() { match_total(false, true); } }
